@@ -32,6 +32,10 @@ T('C19', 'exhaustive enumeration of cloud-top letters (every level, every layer 
   'Bounded exhaustive model checking of the real cloud and haze contributions: for each layer count (2-13) and pressure range every cloud-top position class is run with and without a companion absorber and compared layer by layer with the cloud-free model (opaque at/below, bit-identical above, depth bound); for FlatMie and LeeMie all 81 (top, bottom) letter pairs x magnitudes x particle letters are run and each layer is classified from the level pressures (wholly outside => exactly zero, wholly inside an ordered window => exactly the declared magnitude / Lee law, partial => within [0, full]); no NaN and no exception for any letter.',
   'standard log-spaced pressure grid only; numba/numpy trusted; touching a window edge counts as partial; small-scope hypothesis')
 
+T('C03', 'exhaustive enumeration of every insertion order of every subset (<=3, thorough <=4) of the 7 built-in contributions x call histories (which of model / model_contrib / model_full_contrib runs first) on real models, with product, order-independence, restoration and per-component reference oracles',
+  'Bounded exhaustive model checking of contribution composition on the real TransmissionModel: all 259 (thorough 1099) ordered contribution selections x 3 call histories, plus species-set / abundance / layer / magnitude deviations; on every case T_model = prod_c T_c and T_c = prod_comp T_comp (licensed only where the combined reference tau exceeds 10 at all wavenumbers), the canonically ordered model agrees, the contribution list object is restored after every per-contribution call and a repeated model() is bit-identical, every molecular / CIA / Rayleigh component equals cross-section x mixing ratio (x partner ratio) from the reference interpolator, each source alone equals the reference slant integral (density squared for CIA), zero-abundance species are neutral, and store_contributions returns the binned per-source results.',
+  'cross-section mode only (product over molecules is not an identity for correlated-k); numba/numpy trusted; small-scope hypothesis')
+
 
 def main():
     props = [json.loads(l) for l in open(os.path.join(VERIF, 'properties.jsonl'))]
